@@ -1,13 +1,22 @@
 #!/bin/bash
 # tools/seedmatrix.sh [seed ids...] — every registered quick check against every seeded change (or the given ones);
 # meant for `vp run -- tools/seedmatrix.sh` (runs from a snapshot of the committed /verif; results in ./matrix_out/)
+# LANES (default 3) seeds are processed at a time.
 cd "$(dirname "$0")/.." || exit 2
 (cd lean && lake build >/dev/null 2>&1)
 mkdir -p matrix_out
 ALL=C01,C02,C03,C04,C05,C06,C07,C08,C09,C10,C11,C12,C13,C14,C15,C16,C17,C18,C19,C20
 seeds="$@"
 [ -z "$seeds" ] && seeds=$(ls seeded)
+LANES=${LANES:-3}
+one() {
+  python3 tools/seedtest.py seeded/$1 --novalidate --props $ALL > matrix_out/$1.json 2> matrix_out/$1.err
+}
+n=0
 for s in $seeds; do
-  python3 tools/seedtest.py seeded/$s --novalidate --props $ALL > matrix_out/$s.json 2> matrix_out/$s.err
+  one $s &
+  n=$((n+1))
+  if [ $((n % LANES)) -eq 0 ]; then wait; fi
 done
+wait
 echo done
